@@ -1,6 +1,6 @@
 (* C01 - KV store behaves as an ordered map for every operation history.  Statements only. *)
 Require Import List ZArith Lia. Import ListNotations.
-Require Import IW.KV.Node IW.KV.Spec IW.KV.Node_proofs IW.KV.Keys IW.KV.Inst IW.KV.Keys_proofs IW.Gen.Facts.
+Require Import IW.KV.Node IW.KV.Spec IW.KV.Node_proofs IW.KV.Keys IW.KV.Inst IW.KV.Keys_proofs IW.KV.Skip IW.KV.Skip_proofs IW.Gen.Facts.
 
 (* For EVERY history of put (plain, no-overwrite, with an update function standing for increment / put-handler),
    get and delete, every choice of skip-list levels (they do not enter this layer) and every comparator that is a
@@ -52,6 +52,31 @@ Proof.
   - unfold NPIVOT, NIDX, SPLIT_PIVOT, KVBLK_IDXNUM. vm_compute. lia.
 Qed.
 Print Assumptions C01_kv_refines_map_intkeys.
+
+(* "every random skip-list level choice": the multi-level search of _lx_find_bounds / _lx_roll_forward (KV/Skip.v: start
+   at the head on any level, roll forward while the next node on that level starts at or before the key, descend) ends
+   on the node the walk of the level-0 chain ends on - for EVERY assignment of levels to the nodes, every starting
+   level, every chain satisfying the invariant and every key.  (That the stored links of a real image are the links
+   this model derives from the levels is what the independent reader, KV/Audit.v, checks on every image; the node the
+   real search ends on is compared with the model's answer by the `lower` query of the correspondence check.) *)
+Theorem C01_skip_search_is_linear :
+  forall (K V : Type) (cmp : K -> K -> comparison),
+    (forall a b c : K, cmp a b = Lt -> cmp b c = Eq -> cmp a c = Lt) ->
+    (forall a b c : K, cmp a b = Lt -> cmp b c = Lt -> cmp a c = Lt) ->
+    forall (top : nat) (c : list (lnode K V)) (k : K),
+      Forall (fun n : lnode K V => snd n <> []) c -> sorted K V cmp (flat K V (strip K V c)) ->
+      option_map (ln_node K V) (skip_lower K V cmp top c k) = lower_of K V cmp (strip K V c) k.
+Proof. exact skip_search_is_linear. Qed.
+Print Assumptions C01_skip_search_is_linear.
+
+(* Non-vacuity: five nodes with levels 2,0,1,0,0; the search from level 2 for key 35 ends on the node starting at 40
+   (scan order is descending: 90 > 70 > 40 > 20 > 10), as the plain walk does. *)
+Example C01_skip_example :
+  let c : list (lnode nat nat) := [((1,2),[(90,0);(80,0)]); ((2,0),[(70,0)]); ((3,1),[(40,0);(30,0)]); ((4,0),[(20,0)]); ((5,0),[(10,0)])] in
+  let cmpd := fun a b => Nat.compare b a in
+  option_map (ln_node nat nat) (skip_lower nat nat cmpd 2 c 35) = Some (3, [(40,0);(30,0)]) /\
+  lower_of nat nat cmpd (strip nat nat c) 35 = Some (3, [(40,0);(30,0)]).
+Proof. vm_compute. split; reflexivity. Qed.
 
 (* plain byte keys compare equal only when identical *)
 Theorem C01_plain_keys_eq_iff_identical : forall a b : key, cmp_of plain a b = Eq <-> fst a = fst b.
